@@ -39,6 +39,7 @@ def run(ctx):
     ctx.do(rule_writer_accepts_what_encoders_send)
     ctx.do(rule_reader_reads_the_text_as_given)
     ctx.do(rule_no_fieldwise_rebuild)
+    ctx.do(rule_midnight_is_all_zero)
     ctx.do(rule_truncated_in_utc)
     ctx.do(rule_value_object)
     ctx.do(rule_state_keys_agree)
@@ -781,3 +782,28 @@ def rule_no_fieldwise_rebuild(ctx, rule_id="C15.utc"):
               "reading (the repeated hour at the end of DST) is taken for its first occurrence -- order is not preserved",
               file=fi.module.relpath, line=bad[0].lineno if bad else fi.node.lineno, function=fi.qualname,
               expected="<value>.astimezone(utc) on the value itself", found=[short(c, 80) for c in bad])
+
+
+def rule_midnight_is_all_zero(ctx, rule_id="C15.utc"):
+    """A plain date denotes its midnight (UTC): in the timestamp reader and writer every time-of-day that is CONSTRUCTED
+    (dt.time(...)) to be combined with a date has only zero fields -- dt.time(0, 1, ...) writes every plain date one minute
+    late, dt.time(1, 0, ...) one hour."""
+    run = ctx.run
+    prog = ctx.prog
+    n = 0
+    for fid in (U + "::parse_into_datetime", U + "::format_datetime"):
+        fi = prog.func(fid)
+        k_ = 0
+        for c in body_walk(fi.node):
+            if isinstance(c, ast.Call) and norm(c.func) in ("dt.time", "datetime.time", "time"):
+                n += 1
+                k_ += 1
+                nums = [a_.value for a_ in c.args if isinstance(a_, ast.Constant)] + [k.value.value for k in c.keywords
+                                                                                     if k.arg in ("hour", "minute", "second", "microsecond") and isinstance(k.value, ast.Constant)]
+                okz = all(v == 0 for v in nums) and all(isinstance(a_, ast.Constant) for a_ in c.args)
+                run.check(okz, rule_id, key(fi.module.relpath, fi.qualname, "midnight-is-all-zero#%d" % k_),
+                          "the time of day a plain date is combined with is not midnight: every date value is written / read with an "
+                          "offset", file=fi.module.relpath, line=c.lineno, function=fi.qualname, expected="dt.time(0, 0, tzinfo=utc)",
+                          found=short(c, 60))
+    if n < 2:
+        raise AnalysisError("fewer than 2 constructed times of day in the timestamp reader / writer (%d)" % n)
